@@ -14,3 +14,4 @@ def run(rep, tier, seed):
     from harness.props import real_sched
     real_sched.campaign(rep, "C20", tier, seed, checkpoints=True)
     real_sched.campaign_one(rep, "C20", tier, seed, "pbt", n=24 if tier == "quick" else 400)
+    real_sched.campaign_early_removal(rep, "C20", tier, seed, n=24 if tier == "quick" else 240)
